@@ -10,6 +10,12 @@
 #include <ctype.h>
 #include <fcntl.h>
 #include <sys/mman.h>
+#ifdef SIM_COV
+extern void __gcov_dump(void);
+#define SIM_COV_DUMP() __gcov_dump()
+#else
+#define SIM_COV_DUMP() ((void)0)
+#endif
 
 run_t R;
 
@@ -344,6 +350,7 @@ void sim_fail(const char *vclass, const char *fmt, ...)
     end_line(cls, detail);
     total_runs++;
     print_stats();
+    SIM_COV_DUMP();
     _exit(10);
 }
 void sim_skip(const char *why)
@@ -352,6 +359,7 @@ void sim_skip(const char *why)
     snprintf(cls, sizeof(cls), "SKIP(%s)", why);
     end_line(cls, "");
     print_stats();
+    SIM_COV_DUMP();
     _exit(3);
 }
 void sim_step(void)
